@@ -49,6 +49,39 @@ def run(ctx, crate, crs, tag=""):
         nw = slot_writes(b, "next_watches")
         ok = bool(loops) and len(gets) == 1 and len(ins) == 1 and len(nw) == 1
         detail = "loop=%d get=%d insert=%d next_watches-writes=%d" % (len(loops), len(gets), len(ins), len(nw))
+        names_all = [t["f"]["name"] for i2, t in b.calls() if t.get("f")]
+        if not ok and loops and len(gets) == 1 and len(ins) == 1 and not nw and "zip" in names_all and "iter_mut" in names_all:
+            # the same pairing written as `watched_literals.into_iter().zip(next_watches.iter_mut())`: slot i and literal i are the
+            # i-th elements of two in-order iterations; the slot is written through the zipped reference
+            l = loops[0]
+            gi, gt = gets[0]
+            ii, it = ins[0]
+            zips = [(zi, zt) for zi, zt in b.calls() if zt.get("f") and zt["f"]["name"] == "zip"]
+            zl = set()
+            for zi, zt in zips:
+                for a_ in zt["args"]:
+                    zl |= q.leaves(b, a_, adt=False)
+            both = any("next_watches" in x for x in zl) and any("watched_literals" in x for x in zl)
+            reorder = set(names_all) & {"rev", "skip", "step_by", "take", "filter", "chain", "cycle", "sorted", "rotate_left", "rotate_right", "reverse"}
+            derefw = []
+            for wi_, wj_, ws_ in b.assigns():
+                pr = ws_["p"].get("p", [])
+                if pr and (pr[0] == "*" or (isinstance(pr[0], dict) and pr[0].get("deref"))) and wi_ in l[1] and \
+                        elem_of_loop(b, l, {"k": "copy", "p": {"l": ws_["p"]["l"]}}):
+                    derefw.append((wi_, ws_))
+            lit_ok = elem_of_loop(b, l, gt["args"][1]) and elem_of_loop(b, l, it["args"][1])
+            val_ok = False
+            for wi_, ws_ in derefw:
+                vd, _ = q.origin_thru(b, ws_["r"]["o"], transparent={"std::option::Option::copied", "std::option::Option::cloned"}) if ws_["r"]["k"] == "use" else ({"k": "?"}, [])
+                if vd["k"] == "call" and vd["bb"] == gi:
+                    val_ok = True
+            cid = b.origin(it["args"][2])
+            cid_ok = cid["k"] == "arg" and cid["l"] == 3
+            okz = both and not reorder and lit_ok and val_ok and cid_ok and gi in l[1] and ii in l[1]
+            ctx.ob(R, b.key, "link-both-watches(slot i <-> literal i)", okz, b.loc(),
+                   "for each of the two watches (zipped in order): next_watches[i] = head(literal_i); head(literal_i) = clause  "
+                   "(zip-of-both=%s reorder=%s literal=%s old-head-stored=%s clause-id=%s)" % (both, sorted(reorder), lit_ok, val_ok, cid_ok))
+            ok = None
         if ok:
             l = loops[0]
             gi, gt = gets[0]
@@ -66,8 +99,9 @@ def run(ctx, crate, crs, tag=""):
             from_enum = "enumerate" in [t["f"]["name"] for i2, t in b.calls() if t.get("f")]
             ok = lit_ok and idx_ok and val_ok and cid_ok and inloop and from_enum
             detail = "literal=%s index=%s old-head-stored=%s clause-id=%s per-watch-loop=%s" % (lit_ok, idx_ok, val_ok, cid_ok, inloop and from_enum)
-        ctx.ob(R, b.key, "link-both-watches(slot i <-> literal i)", ok, b.loc(),
-               "for each of the two watches: next_watches[i] = head(literal_i); head(literal_i) = clause  (%s)" % detail)
+        if ok is not None:
+            ctx.ob(R, b.key, "link-both-watches(slot i <-> literal i)", ok, b.loc(),
+                   "for each of the two watches: next_watches[i] = head(literal_i); head(literal_i) = clause  (%s)" % detail)
     # ---------------- next_node
     b = body_by_key(crate, CUR + "::next_node")
     if b is None:
@@ -143,6 +177,20 @@ def run(ctx, crate, crs, tag=""):
         k, _ = q.origin_thru(b, ut["args"][1], transparent=set())
         if field_path(k)[-1:] == ["literal"]:
             head_unset = ui
+    if prev_write is None:
+        # the same through a `match (&self.previous, next_clause_id)`: the operands travel through a tuple, so ask the data slice
+        for ni, ns, nidx in nw:
+            il = q.leaves(b, {"k": "copy", "p": {"l": nidx}})
+            vl = q.leaves(b, ns["r"]["o"]) if ns["r"]["k"] == "use" else set()
+            if any("watch_index" in x for x in il) and any("previous" in x for x in il) and not any("current" in x for x in il) \
+                    and "call:next_node" in vl:
+                prev_write = ni
+    if head_ins is None:
+        for ii, it in ins:
+            kl = q.leaves(b, it["args"][1])
+            vl = q.leaves(b, it["args"][2])
+            if any(x.endswith("literal") for x in kl) and "call:next_node" in vl and not any("current" in x for x in vl):
+                head_ins = ii
     ctx.ob(R, b.key, "unlink:previous.next=next", prev_write is not None, b.loc(), "with a predecessor, its slot is pointed at the successor")
     ctx.ob(R, b.key, "unlink:head=next", head_ins is not None, b.loc(), "without a predecessor the literal's head becomes the successor")
     ctx.ob(R, b.key, "unlink:head-unset-when-empty", head_unset is not None, b.loc(), "without predecessor and successor the literal's head is removed")
@@ -153,8 +201,20 @@ def run(ctx, crate, crs, tag=""):
         # branch structure: prev_write behind previous==Some, the other two behind previous==None split on next
         okb = False
         for c in cs:
+            via_slice = False
+            if c.kind == "discr" and c.src_place is not None and (c.adt or "").endswith("option::Option"):
+                comp = {"k": "copy", "p": c.src_place}
+                # `match (&self.previous, next)`: pick the matched component of the tuple
+                pr = c.src_place.get("p", [])
+                fidx = next((e.get("f") for e in pr if isinstance(e, dict) and "f" in e), None)
+                ds = b.defs_of(c.src_place["l"])
+                if fidx is not None and len(ds) == 1 and ds[0][1] != "term" and ds[0][2]["k"] == "agg" and ds[0][2].get("ak") == "tuple" \
+                        and fidx < len(ds[0][2]["ops"]):
+                    comp = ds[0][2]["ops"][fidx]
+                lv = q.leaves(b, comp)
+                via_slice = any("previous" in x for x in lv) and "call:next_node" not in lv
             if c.kind == "discr" and c.src_place is not None and "previous" in [e.get("n") for e in c.src_place.get("p", []) if isinstance(e, dict)] or \
-                    (c.kind == "discr" and c.src and "previous" in field_path(c.src)):
+                    (c.kind == "discr" and c.src and "previous" in field_path(c.src)) or via_slice:
                 st, nt = c.target("Some"), c.target("None")
                 if st is not None and nt is not None and q.edge_dominates(b, c.bb, st, prev_write) and \
                         q.edge_dominates(b, c.bb, nt, head_ins) and q.edge_dominates(b, c.bb, nt, head_unset):
